@@ -181,7 +181,10 @@ class Model:
         if self.regime == "medium":
             # one crowded section and one crowded interval (tens of members)
             sec = r.choice(list(self.secs))
-            for _ in range(r.randint(26, 60)):
+            # (now and then beyond 64 / 128 members, where size-dependent
+            # paths of an index usually switch)
+            for _ in range(r.choice([r.randint(26, 60), r.randint(26, 60),
+                                     r.randint(61, 150)])):
                 o = self.gen_new_iv()
                 if r.random() < 0.85:
                     o["sec"] = sec
@@ -189,7 +192,8 @@ class Model:
                         o["addr"] = r.randint(0, 120)
                 yield o
             iv = r.choice(list(self.ivs))
-            for _ in range(r.randint(34, 90)):
+            for _ in range(r.choice([r.randint(34, 90), r.randint(34, 90),
+                                     r.randint(91, 170)])):
                 o = self.gen_new_blk()
                 if r.random() < 0.85:
                     o["iv"] = iv
